@@ -146,23 +146,30 @@ pub fn quote_decode_into(
 	// however since the struct's marked as `#[repr(transparent)]` we're guaranteed that
 	// there's at most one non zero-sized field, so only one of these `decode_into` calls
 	// should actually do something, and the rest should just be dummy calls that do nothing.
+	//
+	// A field which was already decoded is owned by a guard until all of the fields are decoded,
+	// so it gets dropped if decoding one of the following fields fails or panics.
 	let mut decode_fields = Vec::new();
+	let mut guards = Vec::new();
 	let mut sizes = Vec::new();
 	let mut non_zst_field_count = Vec::new();
-	for field in fields {
+	for (index, field) in fields.iter().enumerate() {
 		let field_type = &field.ty;
-		decode_fields.push(quote! {{
-			let dst_: &mut ::core::mem::MaybeUninit<Self> = dst_; // To make sure the type is what we expect.
-
-			// Here we cast `&mut MaybeUninit<Self>` into a `&mut MaybeUninit<#field_type>`.
-			//
-			// SAFETY: The struct is marked as `#[repr(transparent)]` so the address of every field will
-			//         be the same as the address of the struct itself.
-			let dst_: &mut ::core::mem::MaybeUninit<#field_type> = unsafe {
-				&mut *dst_.as_mut_ptr().cast::<::core::mem::MaybeUninit<#field_type>>()
+		let guard = Ident::new(&format!("guard_{}_", index), Span::call_site());
+		decode_fields.push(quote! {
+			let #guard = {
+				// Here we cast `*mut Self` into a `&mut MaybeUninit<#field_type>`.
+				//
+				// SAFETY: The struct is marked as `#[repr(transparent)]` so the address of every field will
+				//         be the same as the address of the struct itself.
+				let dst_: &mut ::core::mem::MaybeUninit<#field_type> = unsafe {
+					&mut *ptr_.cast::<::core::mem::MaybeUninit<#field_type>>()
+				};
+				<#field_type as #crate_path::Decode>::decode_into(#input, dst_)?;
+				DropGuard_::<#field_type>(ptr_.cast::<#field_type>())
 			};
-			<#field_type as #crate_path::Decode>::decode_into(#input, dst_)?;
-		}});
+		});
+		guards.push(guard);
 
 		if !sizes.is_empty() {
 			sizes.push(quote! { + });
@@ -181,7 +188,22 @@ pub fn quote_decode_into(
 		::core::assert_eq!(#(#sizes)*, ::core::mem::size_of::<Self>());
 		::core::assert!(#(#non_zst_field_count)* <= 1);
 
+		// Drops the field it points to; only constructed after that field was successfully decoded.
+		struct DropGuard_<T_>(*mut T_);
+		impl<T_> ::core::ops::Drop for DropGuard_<T_> {
+			fn drop(&mut self) {
+				// SAFETY: The field behind the pointer is initialized and not owned by anyone else yet.
+				unsafe { ::core::ptr::drop_in_place(self.0) }
+			}
+		}
+
+		let dst_: &mut ::core::mem::MaybeUninit<Self> = dst_; // To make sure the type is what we expect.
+		let ptr_: *mut Self = dst_.as_mut_ptr();
+
 		#(#decode_fields)*
+
+		// All of the fields are decoded: the value as a whole is handed over to the caller.
+		#( ::core::mem::forget(#guards); )*
 
 		// SAFETY: We've successfully called `decode_into` for all of the fields.
 		unsafe { ::core::result::Result::Ok(#crate_path::DecodeFinished::assert_decoding_finished()) }
